@@ -249,12 +249,14 @@ NOTES = {
 }
 
 
-def report():
-    """Apply every kept change in turn, run its property's quick check, write seeded/README.md."""
+def report(only=()):
+    """Apply every kept change in turn, run its property's quick check, write seeded/README.md.
+    `report C15 C06` re-runs only the changes of those properties and keeps what meta.json records for the others."""
     rows = []
     for mp in sorted(__import__("glob").glob(os.path.join(V, "seeded", "*", "meta.json"))):
         sid = os.path.basename(os.path.dirname(mp))
-        run(sid, [])
+        if not only or any(sid.startswith(o) for o in only):
+            run(sid, [])
         m = json.load(open(mp))
         r = m["check_results"][m["property"]]
         line = next((l for l in r["lines"] if l.startswith("VIOLATION")), "")
@@ -274,7 +276,7 @@ def report():
 
 if __name__ == "__main__":
     if sys.argv[1] == "report":
-        report()
+        report(tuple(sys.argv[2:]))
     elif sys.argv[1] == "collect":
         collect(sys.argv[2], sys.argv[3], sys.argv[4])
     else:
